@@ -142,3 +142,64 @@ Corollary store_still_holds_expired env down fuel t cache last :
 Proof.
   intros Hb E. eapply expired_not_found; [|exact E]. unfold resolve_identity. rewrite Hb. reflexivity.
 Qed.
+
+(* ---- blocking queries ---- *)
+
+Lemma resolve_at_unexpired acls cls bk fresh rpc pol down cache now t c' :
+  resolve_token acls cls (env_at bk fresh rpc pol now) down cache = (OGranted t, c') ->
+  is_expired t now = false.
+Proof. intros H. apply resolve_token_granted_unexpired in H as (k & _ & Hk). exact Hk. Qed.
+
+(* Endpoints that resolve the token again in every run: a run authorized by the token happens
+   while the token is unexpired, for every schedule of runs. *)
+Theorem reresolve_runs_unexpired (resolve_at : N -> outcome) :
+  (forall now t, resolve_at now = OGranted t -> is_expired t now = false) ->
+  forall times k t now,
+    nth_error (blocking_reresolve resolve_at times) k = Some (ByToken t) ->
+    nth_error times k = Some now ->
+    is_expired t now = false.
+Proof.
+  intros Hres. induction times as [|n0 rest IH]; intros k t now Hk Hn; [destruct k; discriminate|].
+  cbn [blocking_reresolve] in Hk.
+  destruct (resolve_at n0) as [| | |t0| |e] eqn:R; cbn [auth_of] in Hk.
+  - destruct k; cbn in *; [discriminate|]. eapply IH; eassumption.
+  - destruct k; [discriminate|]. destruct k; discriminate.
+  - destruct k; cbn in *; [discriminate|]. eapply IH; eassumption.
+  - destruct k; cbn in *.
+    + injection Hk as <-. injection Hn as <-. apply Hres. exact R.
+    + eapply IH; eassumption.
+  - destruct k; cbn in *; [discriminate|]. eapply IH; eassumption.
+  - destruct k; [discriminate|]. destruct k; discriminate.
+Qed.
+
+(* Endpoints that keep the authorizer: every run is authorized by the token resolved before the
+   loop, also the runs after its expiration ... *)
+Theorem held_runs_by_first t times k :
+  k < List.length times -> nth_error (blocking_held (OGranted t) times) k = Some (ByToken t).
+Proof.
+  intros Hk. unfold blocking_held. cbn [auth_of].
+  destruct (nth_error times k) as [now|] eqn:E; [|apply nth_error_None in E; lia].
+  rewrite nth_error_map, E. reflexivity.
+Qed.
+
+Theorem held_after_expiry_refuted :
+  exists t now0 times k now,
+    is_expired t now0 = false /\ nth_error times k = Some now /\ is_expired t now = true
+    /\ nth_error (blocking_held (OGranted t) times) k = Some (ByToken t).
+Proof.
+  exists (Ident 1 (Some 100%N) false), 50%N, [50%N; 200%N], 1, 200%N. repeat split.
+Qed.
+
+(* ... so the property holds for them exactly when no run happens after the expiration *)
+Theorem held_partial t times :
+  (forall now, In now times -> is_expired t now = false) ->
+  forall k now, nth_error (blocking_held (OGranted t) times) k = Some (ByToken t) ->
+    nth_error times k = Some now -> is_expired t now = false.
+Proof. intros H k now _ Hn. apply H. eapply nth_error_In. exact Hn. Qed.
+
+(* the mask only ever clears the flag, and clears it for blank / unresolvable / anonymous tokens *)
+Theorem mask_only_clears blank ok anon flag : mask_flag blank ok anon flag = true -> flag = true.
+Proof. unfold mask_flag. destruct blank, ok, anon; cbn; congruence. Qed.
+Theorem mask_spec blank ok anon flag :
+  mask_flag blank ok anon flag = flag && negb blank && ok && negb anon.
+Proof. destruct blank, ok, anon, flag; reflexivity. Qed.
